@@ -26,6 +26,7 @@ TARGETS = [
     ("rollinit", "", "", "rollinit b"),
     ("rollactivate", "", "rollinit b\npump\n", "rollactivate b"),
     ("republish", "", "", "republish force"),
+    ("cainit", "", "", "cainit c"),
     ("cadelete", "", "", "cadelete b"),
     ("updateid", "", "", "updateid b"),
     ("syncshrunk", "", "childres a b 3\n", "sync b a"),
